@@ -204,4 +204,22 @@ def Loop.restart (l : Loop) (a : Addr) : Loop :=
   | none => l
   | some h => l.setHost { h with up := true }
 
+/-- dragonboat stops a replica as soon as it applies its own removal, from the log (node.go `applyConfigChange`) or
+    from a snapshot whose membership lists it as removed (`restoreRemotes`): has replica `r` applied such a membership? -/
+def Loop.appliedOwnRemoval (l : Loop) (r : SimReplica) : Bool :=
+  match l.group? r.shard with
+  | none => false
+  | some g =>
+    if r.applied < 0 then false else
+    match g.hist[r.applied.toNat]? with
+    | none => false
+    | some m => m.removed.contains r.id
+
+/-- the replicas of host `a` that have applied their own removal stop (their data stays); part of every `execute` and
+    `progress` event of the fleet -/
+def Loop.settle (l : Loop) (a : Addr) : Loop :=
+  match l.host? a with
+  | none => l
+  | some h => l.setHost { h with running := h.running.filter fun r => !l.appliedOwnRemoval r }
+
 end Drummer
